@@ -18,7 +18,7 @@ if ! git apply "$sd/patch.diff" 2>/dev/null; then res="PATCH-DOES-NOT-APPLY"; el
   fi
   if [ -n "$demo" ]; then
     cp "$demo" "$pkg/zz_seed_demo_test.go"
-    if go test -vet=off -count=1 -timeout 10m -run 'TestSeed' "./$pkg/" >"$d/demo1.log" 2>&1; then res="$res demo-with-patch=PASS(!)"; else res="$res demo-with-patch=fail"; fi
+    if go test -vet=off -count=1 -timeout 10m -run 'Seed' "./$pkg/" >"$d/demo1.log" 2>&1; then res="$res demo-with-patch=PASS(!)"; else res="$res demo-with-patch=fail"; fi
     rm -f "$pkg/zz_seed_demo_test.go"
   fi
   out=$(VERIF_DIR=/verif /verif/bin/govc check -property "$prop" -tier ${TIER:-quick} -repo "$d/r" -no-evidence 2>&1); rc=$?
@@ -27,7 +27,7 @@ if ! git apply "$sd/patch.diff" 2>/dev/null; then res="PATCH-DOES-NOT-APPLY"; el
   git checkout -q -- . 
   if [ -n "$demo" ]; then
     cp "$demo" "$pkg/zz_seed_demo_test.go"
-    if go test -vet=off -count=1 -timeout 10m -run 'TestSeed' "./$pkg/" >"$d/demo0.log" 2>&1; then res="$res demo-without=pass"; else res="$res demo-without=FAIL(!)"; fi
+    if go test -vet=off -count=1 -timeout 10m -run 'Seed' "./$pkg/" >"$d/demo0.log" 2>&1; then res="$res demo-without=pass"; else res="$res demo-without=FAIL(!)"; fi
   fi
 fi
 cd /; git -C /repo worktree remove --force "$d/r" >/dev/null 2>&1; rm -rf "$d"
